@@ -20,11 +20,11 @@ ASSUMPTIONS = ['href/xml:base references are plain relative references without e
                'includes inside an unused xi:fallback whose processing would fail, parse=xml targets that are not well-formed together with a fallback, BOMs in text resources: tagged unspecified, only termination asserted',
                'xpointer is unsupported by design: only "an error is reported" is asserted',
                'watchdog timeouts are inconclusive; non-termination is asserted only through the deterministic fetch bound of the counting resolver or a sanitizer-detected stack overflow']
-BUDGET = {'quick': 900, 'thorough': 9000}
+BUDGET = {'quick': 400, 'thorough': 4000}
 WALLCAP = {'quick': 400, 'thorough': 2400}
 
 XINC_FATAL = set(range(276, 287))
-CODES_FOR = {'loop': {282, 283}, 'bad-parse': {279}, 'xpointer-text': {278}, 'xpointer-unsupported': {278}, 'no-href': {277}, 'multi-fb': {280},
+CODES_FOR = {'loop': XINC_FATAL, 'bad-parse': {279}, 'xpointer-text': {278}, 'xpointer-unsupported': {278}, 'no-href': {277}, 'multi-fb': {280},
              'bad-child-xi': {284}, 'bad-child-include': {284}, 'orphan-fb': {276}, 'resource-nofb': {281}, 'nonwf-target': {281},
              'href-fragment': XINC_FATAL, 'empty-href': XINC_FATAL}
 
@@ -279,7 +279,7 @@ def apply_invalid(files, top, inv, excl):
     elif kind == 'bad-child-xi': node[2].insert(0, ['x', ['foo', 'Include', 'fall-back'][b % 3], []])
     return kind
 
-def strip_known(files, top, excl):
+def strip_known(files, top, excl, shape='acyclic'):
     """remove the constructs that trigger the known defects D1, D6, D7 (counted per construct)"""
     # D7: xml:base on xi:fallback
     inc_targets_with_rootbase = []
@@ -291,7 +291,7 @@ def strip_known(files, top, excl):
                 owner[1] = [x for x in owner[1] if x[0] != 'xml:base']; excl['C20-D7'] = excl.get('C20-D7', 0) + 1
     # D6: xml:base on the document element of a document that is not the top document (it may become an included root)
     for p, f in files.items():
-        if f['kind'] != 'xml' or p == top: continue
+        if f['kind'] != 'xml' or (p == top and shape != 'cycle'): continue      # in a cycle the top document is an include target too
         r = f['doc']['root']
         if r[0] == 'e' and xm.battr(r[3]) is not None:
             fix_root_base(files, p, excl)
@@ -362,10 +362,15 @@ _TMP = {}
 def workdir():
     pid = os.getpid()
     if pid not in _TMP:
-        d = tempfile.mkdtemp(prefix='verif.')
+        shm = '/dev/shm'      # tmpfs: a case is 2-8 small files; on the disk-backed /tmp the create/remove cycle dominates the run time
+        d = tempfile.mkdtemp(prefix='verif.', dir=shm if os.path.isdir(shm) and os.access(shm, os.W_OK) else None)
         _TMP[pid] = d
         atexit.register(shutil.rmtree, d, True)
     return _TMP[pid]
+
+def cleanup():
+    d = _TMP.pop(os.getpid(), None)       # multiprocessing children leave through os._exit: atexit does not run there
+    if d: shutil.rmtree(d, True)
 
 def materialise(case):
     root = os.path.join(workdir(), 'c')
@@ -507,7 +512,7 @@ def worker(ctx):
         files = copy.deepcopy(files)
         excl = {}
         applied = apply_invalid(files, top, inv, excl) if inv else None
-        strip_known(files, top, excl)
+        strip_known(files, top, excl, shape)
         for k, v in excl.items(): st_.excluded_known[k] += v
         try:
             case, mctx = build_case(files, top, api, res, url)
@@ -528,10 +533,16 @@ def worker(ctx):
         if ok is None:
             st_.inconclusive += 1; return
         if not ok: raise PropertyFailure(case, detail)
-    hyp_run(ctx, case_strategy(), prop, ctx.budget)
+    try:
+        hyp_run(ctx, case_strategy(), prop, ctx.budget)
+    finally:
+        cleanup()
 
 def replay(case, ctx):
-    ok, detail = run_case(case, ctx.executor('xv_xinc'))
+    try:
+        ok, detail = run_case(case, ctx.executor('xv_xinc'))
+    finally:
+        cleanup()
     if ok is None: return True, 'inconclusive: ' + detail
     return ok, detail
 
